@@ -159,7 +159,10 @@ var (
 )
 
 // a non-empty MAC that does not exist makes parseSetupConf wait 10 x 1 s; the harness
-// therefore only hands it MACs that are empty or resolve immediately.
+// therefore only hands it MACs that are empty or resolve immediately. (In this sandbox
+// nothing resolves: the only device is loopback and the netlink library reports its
+// all-zero address as empty, so parseSetupConf only ever sees an empty MAC here, while
+// parseTearDownConf / parseCheckConf, which do not wait, get every generated MAC.)
 func vfC15ExistingMAC() string {
 	vfC15LoOnce.Do(func() {
 		if _, err := link.GetDeviceNumber("00:00:00:00:00:00"); err == nil {
@@ -277,4 +280,4 @@ func vfC15RunCNI(c *vt.Ctx, s vfC15CNIScenario) {
 	}
 }
 
-func TestVerifC15CNIPlugin(t *testing.T) { vt.Run(t, vfC15GenCNI, vfC15RunCNI) }
+func TestVerifC15CNIPlugin(t *testing.T) { vt.Run(t, vfC15GenCNI, g.NoPanic(vfC15RunCNI)) }
